@@ -61,7 +61,7 @@ def gen(rng):
         return {'s': s_, 'nw': nw, 'nf': nf, 'r': rng.choice(RMODES), 'o': rng.choice(OMODES), 'scale': scale, 'bias': bias, 'vs': vs, 'ts': ts,
                 'route': rng.choice(['ctor', 'call', 'set_val', 'ctor_like', 'equal', 'like_method']), 'carrier': rng.choice(['float', 'int', 'int', 'npint', 'listint', 'np:uint8', 'np:int8', 'np:int16', 'np:uint16', 'np:uint32', 'np:uint64', 'np:float32', 'fxp', 'fxp', 'listnp:uint64', 'listnp:uint64']),
                 'pyint_params': all_int or rng.random() < 0.5,      # integral scale / bias passed as Python ints (not floats)
-                'np_params': None if all_int else rng.choice([None, None, None, 'float32', 'float16', 'float64'])}
+                'np_params': None if all_int else rng.choice([None, None, None, 'float32', 'float16', 'float64', '0d'])}
 
 def jcase(c):
     return {k: (str(v) if isinstance(v, Fraction) else ([str(t) for t in v] if isinstance(v, list) else v)) for k, v in c.items()}
@@ -79,7 +79,9 @@ def run_cases(cases, res):
         if c.get('pyint_params'):
             if c['scale'].denominator == 1: kw['scale'] = int(c['scale'])
             if c['bias'].denominator == 1: kw['bias'] = int(c['bias'])
-        if c.get('np_params'):      # scale / bias handed over as NumPy floating scalars (when that type holds them exactly)
+        if c.get('np_params') == '0d':      # scale / bias handed over as 0-d arrays
+            for k_ in ('scale', 'bias'): kw[k_] = np.array(float(c[k_]))
+        elif c.get('np_params'):      # scale / bias handed over as NumPy floating scalars (when that type holds them exactly)
             for k_ in ('scale', 'bias'):
                 t_ = getattr(np, c['np_params'])
                 if Fraction(float(t_(float(c[k_])))) == c[k_]: kw[k_] = t_(float(c[k_]))
@@ -117,6 +119,9 @@ def run_cases(cases, res):
                 else: x.set_val(val)
             obs = {'codes': lib.codes_of(x), 'get': lib.vals_of(x.get_val()), 'upper': Fraction(float(x.upper)), 'lower': Fraction(float(x.lower)), 'prec': Fraction(float(x.precision)),
                    'status': lib.status3(x)}
+            # an element taken by indexing, and an object created with no value: no write of a value ever happened to them, so no flag is raised
+            if len(obs['codes']) > 1: e0 = x[0]; obs['elem'] = (lib.status3(e0), lib.vals_of(e0.get_val())[0])
+            obs['novalue'] = lib.status3(fx.Fxp(None, c['s'], c['nw'], c['nf'], **kw))
             # reading is an observation: the stored codes are the same after it, and a second reading returns the same values
             obs['codes_after_read'] = lib.codes_of(x); obs['get2'] = lib.vals_of(x.get_val()); _ = str(x); _ = (x == 0)
             obs['codes_after_reads'] = lib.codes_of(x)
@@ -141,6 +146,10 @@ def run_cases(cases, res):
             res.fail(jcase(c), 'C17: stored code is not the C01 quantization of (v - bias)/scale', expected=want, got=obs['codes']); continue
         if obs['codes_after_read'] != obs['codes'] or obs['codes_after_reads'] != obs['codes'] or obs['get2'] != obs['get']:
             res.fail(jcase(c), 'C17: reading a scaled object (get_val, str, ==) changed its stored codes or a second reading returned other values', expected=(obs['codes'], [str(g) for g in obs['get']]), got=(obs['codes_after_read'], obs['codes_after_reads'], [str(g) for g in obs['get2']])); continue
+        if obs['novalue'] != (False, False, False):
+            res.fail(jcase(c), 'C17: a scaled object created with NO value has raised flags (nothing was stored: the placeholder zero is not an input)', expected=(False, False, False), got=obs['novalue']); continue
+        if 'elem' in obs and obs['status'] == (False, False, False) and (obs['elem'][0] != (False, False, False) or obs['elem'][1] != obs['get'][0]):
+            res.fail(jcase(c), 'C17: the element x[0] of a scaled array has raised flags (or another value) although no write into it or into x raised any', expected=((False, False, False), str(obs['get'][0])), got=(obs['elem'][0], str(obs['elem'][1]))); continue
         want_get = [c['scale'] * (Fraction(cd) * lsb) + c['bias'] for cd in obs['codes']]
         if all(exact_double(c['scale'] * (Fraction(cd) * lsb)) and exact_double(w) for cd, w in zip(obs['codes'], want_get)) and obs['get'] != want_get:
             res.fail(jcase(c), 'C17: value read back is not scale*code*2^-n_frac + bias', expected=[str(w) for w in want_get], got=[str(g) for g in obs['get']]); continue
@@ -170,6 +179,7 @@ def best_sizes(rng, n, res):
         t = Fraction(rng.randint(-2**12, 2**12), 2 ** rng.randint(0, 8)); v = scale * t + bias
         if not all(exact_double(q) for q in (v, v - bias, t, scale, bias)) or (scale == 1 and bias == 0): continue
         cases.append({'scale': str(scale), 'bias': str(bias), 't': str(t)})
+        if rng.random() < 0.4: cases[-1]['max_error'] = rng.choice([1, 2, 3, 4, 6])      # (a coarse max_error = 2^-k: the same configuration on both sides)
     best_sizes_cases(cases, res)
 
 def best_sizes_cases(cases, res):
@@ -177,12 +187,13 @@ def best_sizes_cases(cases, res):
     for c in cases:
         scale, bias, t = Fraction(c['scale']), Fraction(c['bias']), Fraction(c['t']); v = scale * t + bias
         try:
-            a = fx.Fxp(float(v), scale=float(scale), bias=float(bias)); b = fx.Fxp(float(t))
+            kwm = {'max_error': 2.0 ** -c['max_error']} if c.get('max_error') else {}
+            a = fx.Fxp(float(v), scale=float(scale), bias=float(bias), **kwm); b = fx.Fxp(float(t), **kwm)
         except Exception as e:
             res.fail(c, 'C17: best-size construction of a scaled object raised %s' % lib.exc_name(e), got=str(e)[:200]); continue
         res.count('B:best-sizes-scaled', key=repr(c), nontrivial=True)
         if A.fmt_of(a) != A.fmt_of(b) or lib.codes_of(a) != lib.codes_of(b):
-            res.fail(c, 'C17: size inference for a scaled object does not size the transformed value', expected=(A.fmt_of(b), lib.codes_of(b)), got=(A.fmt_of(a), lib.codes_of(a)))
+            res.fail(c, 'C17: size inference for a scaled object does not size the transformed value (as the unscaled object of that value under the same configuration)', expected=(A.fmt_of(b), lib.codes_of(b)), got=(A.fmt_of(a), lib.codes_of(a)))
 
 def operand_cases(rng, n):
     """a scaled object as an operand of + - * (first, second) or as the out= target: it counts by the value it reads back"""
